@@ -7,4 +7,6 @@ INVARIANT DeliversExpansion
 INVARIANT PrefixSoFar
 INVARIANT DepthBound
 INVARIANT ExportTree
+INVARIANT WrLaws
+INVARIANT ExportWr
 PROPERTY Terminates
